@@ -4,7 +4,7 @@
    trivia); declarations and statements are decided by the search (see tools/props/C01.py). *)
 From Coq Require Import List NArith Bool String Arith.
 From Verif Require Import Base.Res Gen.GenTokens Gen.GenPrec Model.Lexer Model.ExprParser Proofs.ExprParserProofs Proofs.ExprInstance.
-From Verif Require Model.StParser Model.DeclParser Model.StInstance Proofs.StExprProofs Proofs.StStmtProofs Proofs.StInstanceProofs Proofs.DeclProofs Proofs.DeclInstanceProofs.
+From Verif Require Model.StParser Model.DeclParser Model.StInstance Proofs.StExprProofs Proofs.StStmtProofs Proofs.StInstanceProofs Proofs.DeclProofs Proofs.DeclInstanceProofs Proofs.LibProofs.
 Import ListNotations.
 Local Open Scope string_scope.
 
@@ -106,3 +106,16 @@ Theorem C01_declaration_blocks : forall (l : list (DeclProofs.swb token)), Foral
   DeclParser.blocks token StInstance.tok_class t_text StInstance.tok_num StInstance.ty_name f acc (DeclProofs.flat_wbs token l ++ rest) =
   DeclParser.DOk (acc ++ flat_map (DeclProofs.erase_wb token StInstance.tok_class t_text StInstance.tok_num StInstance.ty_name) l, rest).
 Proof. exact (DeclProofs.blocks_spelled token StInstance.tok_class t_text StInstance.tok_num StInstance.ty_name). Qed.
+
+(* A library: any number of function blocks and programs, each with its declaration blocks and statements (or none), any
+   trivia between and around them -- the entry point returns exactly the units the text denotes, in source order: kind,
+   name, declarations, statements.  (The parser itself drops the edge-detecting inputs of a PROGRAM: the recorded finding
+   program-edge-inputs-dropped; the model keeps them.) *)
+Theorem C01_library_faithful : forall (l : list LibProofs.swu) wend,
+  Forall LibProofs.wf_wu l -> StExprProofs.all_triv token StInstance.tok_class wend ->
+  StInstance.parse_lib_tokens (LibProofs.flat_lib l ++ wend) = StInstance.O3Parsed (map LibProofs.erase_wu l).
+Proof. exact LibProofs.parse_lib_spelled. Qed.
+
+Theorem C01_unit_faithful : forall u rest F, LibProofs.wf_u u -> (LibProofs.size_u u + 1 <= F)%nat ->
+  StInstance.parse_unit F (LibProofs.flat_u u ++ rest) = StInstance.UOk (LibProofs.erase_u u) rest.
+Proof. exact LibProofs.parse_unit_spelled. Qed.
